@@ -35,6 +35,7 @@ SMALL_ALPHA = ["t", "p", "--name", "-n", "-u5", "--name=x", "x", "-f", "--", "-f
 class C07(Prop):
     id = "C07"
     corr_module = "Corr.C07Corr"
+    preds = ("corr", "spec", "only_b2")
     quick_n = 5000
     thorough_n = 40000
     shard_size = 160
@@ -152,8 +153,11 @@ class C07(Prop):
         return "ok:ctxs=%d%s%s" % (min(4, len(o["ctxs"])), ",unparsed" if o["unparsed"] else "",
                                    ",remainder" if o["remainder"] else "")
 
-    def finding_of(self, case, obs):
+    def finding_of(self, case, obs, verdict=None):
         if case["kind"] != "parse":
+            return None
+        # Coq-side clause predicate: the clause that fails is B2 and only B2
+        if verdict is not None and not verdict.get("only_b2", True):
             return None
         specs = [] if case.get("noctx") else pc.ctx_specs(case["sigs"])
         init_spec = pc.initial_spec(case["initial"])
